@@ -15,7 +15,7 @@ META = dict(
     technique="TLA+ refinement model (DynArray.tla: implementation-shaped buffer/index model vs Python list) checked "
               "exhaustively by TLC; every model transition replayed into the real class and every recorded run "
               "validated by TLC against the list model (TraceDynArray.tla)",
-    text="TLC proves, for every operation sequence up to the stated depth over buckets 2-4 with and without drop-oldest, "
+    text="TLC proves, for every operation sequence up to the stated depth over buckets 1-4 with and without drop-oldest, "
          "that the implementation-shaped model returns exactly what Python list semantics returns for every read and "
          "that no list-valid operation raises. The binding to the code is two-way: each transition of that state graph "
          "is executed on the real DynamicNumpyArray along a shortest witness, and these runs plus long random sequences "
@@ -36,9 +36,10 @@ def cfg(bucket, drop, maxlen, depth, multi, writes, export):
 
 def instances(ctx):
     # (bucket, drop, maxlen, depth, multi, writes)
-    q = [(2, 0, 6, 7, 3, False), (3, 0, 7, 7, 3, False), (2, 0, 4, 4, 2, True), (3, 0, 4, 4, 2, True),
+    # bucket 1 is real: CandlesState.init_storage allocates int(bucket / timeframe minutes + 1) rows = 1 for 1D
+    q = [(1, 0, 5, 6, 2, False), (2, 0, 6, 7, 3, False), (3, 0, 7, 7, 3, False), (2, 0, 4, 4, 2, True), (3, 0, 4, 4, 2, True),
          (2, 4, 9, 9, 0, False), (3, 6, 8, 7, 2, False)]
-    t = [(2, 0, 8, 8, 3, False), (3, 0, 8, 8, 3, False), (4, 0, 9, 8, 4, False), (2, 0, 5, 5, 2, True),
+    t = [(1, 0, 6, 7, 3, False), (1, 0, 4, 4, 2, True), (1, 3, 7, 7, 2, False), (2, 0, 8, 8, 3, False), (3, 0, 8, 8, 3, False), (4, 0, 9, 8, 4, False), (2, 0, 5, 5, 2, True),
          (3, 0, 5, 5, 2, True), (4, 0, 5, 5, 2, True), (2, 4, 12, 12, 0, False), (3, 6, 14, 14, 0, False),
          (2, 4, 8, 8, 2, False), (3, 6, 9, 8, 3, False), (4, 6, 9, 8, 3, False)]
     return ctx.pick(q, t)
@@ -263,7 +264,7 @@ def run(ctx):
     n_t = ctx.pick(60, 1500)
     length = ctx.pick(150, 400)
     for s in range(n_t):
-        bucket = rng.choice([2, 3, 4, 5, 7, 10, 16])
+        bucket = rng.choice([1, 2, 3, 4, 5, 7, 10, 16])
         drop = rng.choice([0, 0, 0, 4, 6, 10, 20])
         _NEAR[0] = (s % 3 == 1)          # every third sequence stores nearly equal float rows
         # every fourth sequence drives TWO arrays of the same shape in an interleaved way (each is its own trace with
@@ -301,7 +302,9 @@ def run(ctx):
                 L["countdown"] = rng.randint(0, 6)      # 0: the held row is appended at once (arr.append(arr[i]))
                 continue
             v = L["v"]
-            if c < 0.45 or n == 0:
+            if n == 0 and c >= 0.3:          # an empty array is filled by a single or (30 %) a bulk append
+                c = 0.5 if rng.random() < 0.3 else 0.0
+            if c < 0.45:
                 op = {"k": "append", "v": v}; L["v"] += 1
             elif c < 0.6:
                 m = rng.randint(1, 2 * bucket + 1)
